@@ -98,7 +98,21 @@ theorem wf_union {a b : Layout} (ha : WF a) (hb : WF b) : WF (a.union b) := by
   have hpos : 0 < Nat.max a.align b.align := natMax_pos ha.1
   exact ⟨hpos, isPowerOfTwo_max ha.2.1 hb.2.1, nextMultipleOf_mod _ _ hpos⟩
 
-theorem wf_tag : WF tagLayout := by unfold WF tagLayout Layout.new; decide
+/-- the five independently written enum loops start from the same builder
+    state, and `()` is `size 0, align 1` — over the constants regenerated from
+    each loop's own source -/
+theorem loop_constants_agree :
+    variantStartLoc = variantStart ∧ variantStartClone = variantStart ∧
+    variantStartDrop = variantStart ∧ variantStartEq = variantStart ∧
+    tagLayout = Layout.new 1 1 ∧ Gen.LayoutLoops.unit_layout = Layout.new 0 1 := by decide
+
+@[simp] theorem variantStartLoc_eq : variantStartLoc = variantStart := loop_constants_agree.1
+@[simp] theorem variantStartClone_eq : variantStartClone = variantStart := loop_constants_agree.2.1
+@[simp] theorem variantStartDrop_eq : variantStartDrop = variantStart := loop_constants_agree.2.2.1
+@[simp] theorem variantStartEq_eq : variantStartEq = variantStart := loop_constants_agree.2.2.2.1
+@[simp] theorem unit_layout_eq : Gen.LayoutLoops.unit_layout = Layout.new 0 1 := loop_constants_agree.2.2.2.2.2
+
+theorem wf_tag : WF tagLayout := by rw [loop_constants_agree.2.2.2.2.1]; unfold WF Layout.new; decide
 theorem wf_unit : WF (Layout.new 0 1) := by unfold WF Layout.new; decide
 theorem binv_variantStart : BInv variantStart := binv_add binv_new wf_tag
 
